@@ -18,3 +18,5 @@ def run(ctx, rep):
     threads.rule_T3_owner_exit(mod, rep)      # a worker leaves only on a memory code: 0 < column code <= n must be recorded and reported, not treated as fatal
     from ..rules import more
     more.rule_snode_continue(mod, rep)
+    from ..rules import more3
+    more3.rule_snode_shape(mod, rep)
